@@ -193,4 +193,5 @@ func main() {
 		}
 	}
 	em.Add("generated_struct_types_driven", int64(types))
+	interfacesPhase(u, n/3)
 }
